@@ -872,6 +872,121 @@ Proof.
       destruct (errs_readonly f _ _ e1 R E1) as (A1 & B1). auto.
 Qed.
 
+(* the kind of error a violated pure constraint is reported with is determined
+   by what its variable is resolved to: ConstraintViolation for an unbound
+   variable or a base type, TypeMismatch for a compound type *)
+Definition kind_of_root (s : store) (c : nat) (e : err) : Prop :=
+  match follow s (k_ref (constr_of s c)) with
+  | V _ => e = EConstraintViolation
+  | O o _ => if basic o then e = EConstraintViolation else e = ETypeMismatch
+  end.
+
+Lemma pfc_root_kind n s c e :
+  k_elim (constr_of s c) = false ->
+  (exists a, k_alts (constr_of s c) = [O a []] /\ basic a = true) ->
+  pfc n s (constr_of s c) = PErr e -> e = EFuel \/ kind_of_root s c e.
+Proof.
+  intros El (a & Ea & Ba) Ep. unfold kind_of_root.
+  destruct (follow s (k_ref (constr_of s c))) as [va|oa xs] eqn:Ef.
+  - destruct (pfc_readonly_err n s c e) as ([->| ->] & _); auto.
+    split; [exact El|]. split; [eauto|]. rewrite Ef. exact I.
+  - destruct (basic oa) eqn:Boa.
+    + destruct (pfc_readonly_err n s c e) as ([->| ->] & _); auto.
+      split; [exact El|]. split; [eauto|]. rewrite Ef. exact Boa.
+    + destruct n as [|f]; cbn [pfc] in Ep; [inversion Ep; auto|]. rewrite Ea in Ep.
+      destruct (ubase f s (k_ref (constr_of s c)) a) as [e'|] eqn:Eu.
+      { inversion Ep; subst. destruct (ubase_err _ _ _ _ _ Eu); auto. }
+      destruct f as [|f]; [cbn [ubase] in Eu; discriminate|].
+      cbn [ubase] in Eu. rewrite Ef, Boa in Eu.
+      destruct ((oa =? Bottom) || (a =? Top)) eqn:Et; [|discriminate].
+      revert Ep. cbn [match_f]. rewrite follow_O, Ef, Boa. cbn [andb]. rewrite Et.
+      assert (Na : (oa =? a) = false).
+      { apply Nat.eqb_neq. intros ->. congruence. }
+      rewrite Na. cbn [negb]. destruct (k_strict (constr_of s c)); discriminate.
+Qed.
+
+Theorem check_constraints_perm_kind f v s r1 r2 rest :
+  (forall c, In c (cset_of s (c_cs (cell_of s v))) ->
+     k_elim (constr_of s c) = false /\
+     exists a, k_alts (constr_of s c) = [O a []] /\ basic a = true) ->
+  (* all pending constraints are resolved to the same thing *)
+  (forall c c', In c (cset_of s (c_cs (cell_of s v))) -> In c' (cset_of s (c_cs (cell_of s v))) ->
+     follow s (k_ref (constr_of s c)) = follow s (k_ref (constr_of s c'))) ->
+  match check_constraints H (S f) v (with_sched s (r1 :: rest)),
+        check_constraints H (S f) v (with_sched s (r2 :: rest)) with
+  | MOk _ s1, MOk _ s2 => eqv s1 s2
+  | MEr e1 _, MEr e2 _ => e1 = e2 \/ e1 = EFuel \/ e2 = EFuel
+  | _, _ => False
+  end.
+Proof.
+  intros Pq Rt.
+  assert (Pp : lpure s (cset_of s (c_cs (cell_of s v)))).
+  { intros c Hc. destruct (Pq c Hc) as (El & a & Ea & Ba). split; [exact El|].
+    intros t Et. rewrite Ea in Et. inversion Et; subst. eauto. }
+  rewrite !cc_sched by exact Pp. cbv zeta.
+  set (p := cset_of s (c_cs (cell_of s v))) in *.
+  assert (P1 : Permutation (permute (length p) r1 p) p) by (apply permute_perm; lia).
+  assert (P2 : Permutation (permute (length p) r2 p) p) by (apply permute_perm; lia).
+  assert (K : forall l1 l2 e1 e2, Permutation l1 p -> Permutation l2 p ->
+              errs f s l1 e1 -> errs f s l2 e2 -> e1 = e2 \/ e1 = EFuel \/ e2 = EFuel).
+  { intros l1 l2 e1 e2 Q1 Q2 (c1 & H1 & A1) (c2 & H2 & A2).
+    apply (Permutation_in _ Q1) in H1. apply (Permutation_in _ Q2) in H2.
+    unfold act_of in A1, A2.
+    destruct (pfc f s (constr_of s c1)) as [e1'| |] eqn:B1;
+      [|discriminate|destruct (k_done (constr_of s c1)); discriminate].
+    destruct (pfc f s (constr_of s c2)) as [e2'| |] eqn:B2;
+      [|discriminate|destruct (k_done (constr_of s c2)); discriminate].
+    inversion A1; inversion A2; subst.
+    destruct (Pq c1 H1) as (El1 & X1). destruct (Pq c2 H2) as (El2 & X2).
+    destruct (pfc_root_kind f s c1 e1 El1 X1 B1) as [->|G1]; auto.
+    destruct (pfc_root_kind f s c2 e2 El2 X2 B2) as [->|G2]; auto.
+    left. unfold kind_of_root in *. rewrite (Rt c1 c2 H1 H2) in G1.
+    destruct (follow s (k_ref (constr_of s c2))) as [w|o xs]; [congruence|].
+    destruct (basic o); congruence. }
+  destruct (2 <=? length p).
+  - pose proof (loop_perm f v _ _ (Permutation_trans P1 (Permutation_sym P2)) s
+                  (lpure_perm _ _ _ (Permutation_sym P1) Pp)) as L.
+    unfold LR in L.
+    destruct (loop f v (permute (length p) r1 p) s) as [u1 s1|e1 s1] eqn:E1;
+      destruct (loop f v (permute (length p) r2 p) s) as [u2 s2|e2 s2] eqn:E2;
+      try contradiction; cbn [lift_sched].
+    + subst s2. apply eqv_refl.
+    + destruct L as (L1 & L2). exact (K _ _ e1 e2 P1 P2 L1 L2).
+  - destruct (loop f v p s) as [u1 s1|e1 s1] eqn:E1; cbn [lift_sched]; [repeat split|auto].
+Qed.
+
+(* the same for pure constraints whose variable may meanwhile be bound to a
+   compound type: success and the resulting store agree; a failure may be
+   reported as TypeMismatch by one violated constraint and as
+   ConstraintViolation by another, depending on which is met first *)
+Theorem check_constraints_perm_pure f v s r1 r2 rest :
+  lpure s (cset_of s (c_cs (cell_of s v))) ->
+  match check_constraints H (S f) v (with_sched s (r1 :: rest)),
+        check_constraints H (S f) v (with_sched s (r2 :: rest)) with
+  | MOk _ s1, MOk _ s2 => eqv s1 s2 /\ vars s1 = vars s
+  | MEr e1 _, MEr e2 _ => cerr e1 /\ cerr e2
+  | _, _ => False
+  end.
+Proof.
+  intros Pp. rewrite !cc_sched by exact Pp. cbv zeta.
+  set (p := cset_of s (c_cs (cell_of s v))) in *.
+  assert (P1 : Permutation (permute (length p) r1 p) p) by (apply permute_perm; lia).
+  assert (P2 : Permutation (permute (length p) r2 p) p) by (apply permute_perm; lia).
+  destruct (2 <=? length p).
+  - pose proof (loop_perm f v _ _ (Permutation_trans P1 (Permutation_sym P2)) s
+                  (lpure_perm _ _ _ (Permutation_sym P1) Pp)) as L.
+    unfold LR in L.
+    destruct (loop f v (permute (length p) r1 p) s) as [u1 s1|e1 s1] eqn:E1;
+      destruct (loop f v (permute (length p) r2 p) s) as [u2 s2|e2 s2] eqn:E2;
+      try contradiction; cbn [lift_sched].
+    + subst s2. split; [apply eqv_refl|].
+      apply loop_vars in E1; [exact E1|]. eapply lpure_perm; [apply Permutation_sym; exact P1|exact Pp].
+    + destruct L as (L1 & L2). split; eapply errs_cerr; eauto.
+  - destruct (loop f v p s) as [u1 s1|e1 s1] eqn:E1; cbn [lift_sched].
+    + split; [repeat split|]. apply loop_vars in E1; auto.
+    + apply loop_err in E1; [|exact Pp]. split; eapply errs_cerr; eauto.
+Qed.
+
 (* ------------------------------------------------------------------ *)
 (* relational logic: two runs from stores that differ only in the       *)
 (* schedule, all constraints pure                                       *)
@@ -1254,4 +1369,17 @@ Proof.
   right. unfold cerr, viol_err in *. split.
   - destruct C1 as [?|[?|[?|C]]]; auto. destruct (N1 _ C).
   - destruct C2 as [?|[?|[?|C]]]; auto. destruct (N2 _ C).
+Qed.
+
+(* a successful run leaves the same dump whatever the schedule *)
+Theorem run_dump_pure : forall H fuel prog sc1 sc2, pure_prog H prog ->
+  fst (fst (run_cmds H fuel prog 0 [] (empty_store sc1))) = None ->
+  run_dump H fuel sc1 prog = run_dump H fuel sc2 prog.
+Proof.
+  intros H fuel prog sc1 sc2 Pp N. pose proof (run_cmds_pure H fuel prog sc1 sc2 Pp) as R.
+  cbv zeta in R. unfold run_dump.
+  destruct (run_cmds H fuel prog 0 [] (empty_store sc1)) as [[o1 v1] s1].
+  destruct (run_cmds H fuel prog 0 [] (empty_store sc2)) as [[o2 v2] s2].
+  cbn [fst snd] in *. subst o1. destruct o2 as [[e2 i2]|]; [contradiction|].
+  destruct R as (-> & Ev & Ec & Ek). unfold dump. rewrite Ev, Ec, Ek. reflexivity.
 Qed.
